@@ -42,8 +42,7 @@ T_TIME = ["T9 Instant::now/checked_add/comparison (assumed clock token `reached`
 
 
 def mk(units, trusted, assumptions, explanation):
-    return {"units": units, "trusted": T_COMMON + trusted, "assumptions": assumptions, "explanation": explanation    "C19": mk(["u1"], T_SIGNAL, [R1, R2, R3, A1, A2, A5], "full functional post-condition of drain_into including both loops"),
-}
+    return {"units": units, "trusted": T_COMMON + trusted, "assumptions": assumptions, "explanation": explanation}
 
 
 PROPS = {
